@@ -29,6 +29,10 @@ CHECKS = {
    text="For generated schemas and frames with duplicate rows and repeated index labels, the outcome of the real validate(head,tail,sample,random_state) is compared (verdict, reasons, failing cells where labels identify rows) with the real validate of the frame made of the selected positions; also that the result has all rows, that a fixed random_state is deterministic, and that head=len(D) equals no option. pandas and polars.",
    note="Sampled positions are taken from a position column sampled with the same seed by the same library; index-level failure cases compared by value.",
    ref="4/C20"),
+ "C08": dict(cat="exploration", tech="differential monitor: the same backend-neutral schema/table built for pandas and polars, both real backends run lazily; third opinion from the reference model",
+   text="Each backend-neutral (spec, table) is built for pandas and for polars and validated lazily by both real backends: verdicts, frame-level errors, dtype/coercion error columns, failing cells (column, row position) and the parsed output (columns, order, logical dtype, values up to the null representation) must agree; without parsing options the verdict is also compared with the reference model so that a bug shared by both backends is seen.",
+   note="Excluded as engine-representation artefacts (generated, counted, not judged): nulls in numpy int/bool columns, casts from text to datetime/bool, empty/all-null columns of a foreign physical type, >=2 nulls under unique, joint uniqueness over nulls; features the polars docs declare unsupported.",
+   ref="4/C08"),
 }
 NOT_YET = {}
 
